@@ -257,10 +257,20 @@ inline Case draw_case(const model::Desc & d, unsigned ncoords, bool allow_empty 
         Words x;
         // double coordinates: every third coordinate lies on a 2^-10 grid, where interpolation weights need up to 30
         // bits (exact in double, not in float); the model refuses whatever is not exact for the stack at hand
-        const ld gg = (top.in == Sc::f64 && *in_range<unsigned>(0, 2) == 0) ? g / 256 : g;
+        // ... and every sixth has components 2^-30 beside a half-integer (a rounding tie of a nearest-neighbour layer in
+        // double, no tie any more once the coordinate has passed through float)
+        const unsigned sel = top.in == Sc::f64 ? *in_range<unsigned>(0, 5) : 5;
+        const ld gg = sel <= 1 ? g / 256 : g;
         for (size_t a = 0; a < top.N; ++a) {
             ld lo = std::max(reg[0][a].lo, lowest_of(top.in)), hi = reg[0][a].hi;
-            x.push_back(model::encode(draw_in(lo, std::max(lo, hi), gg), top.in));
+            ld v = draw_in(lo, std::max(lo, hi), gg);
+            if (sel == 2) {
+                ld t = std::floor(draw_in(lo, std::max(lo, hi), g)) + 0.5L + (*in_range<unsigned>(0, 1) ? 0x1p-30L : -0x1p-30L);
+                if (t >= lo && t <= hi) {
+                    v = t;
+                }
+            }
+            x.push_back(model::encode(v, top.in));
         }
         c.coords.push_back(x);
     }
